@@ -3,7 +3,10 @@ use super::TsxRegistration;
 use crate::transport::OutgoingResponse;
 use crate::{IncomingRequest, Result};
 use sip_types::{CodeKind, Method};
+#[cfg(not(feature = "ezk-verif"))]
 use std::time::Instant;
+#[cfg(feature = "ezk-verif")]
+use tokio::time::Instant;
 use tokio::time::timeout_at;
 
 /// Server transaction. Used to respond to the incoming request.
